@@ -53,6 +53,8 @@ class Contract:
     axioms: Callable | None = None  # (S, a) -> list of *definitional* axioms for spec arrays (see S.defarray)
     static: bool = False  # staticmethod: a call through an instance or the class does not pass the receiver
     cases: dict[str, Callable] = field(default_factory=dict)  # proof by cases: name -> (S,a)->Bool (must be exhaustive)
+    star_call: bool = False  # contract of a *stored callable* `rec.field(*args, **kwargs)`: params = (rec, args, kwargs),
+    #                          the starred positional and keyword collections are passed as opaque wholes
 
     @property
     def file(self) -> str:
@@ -87,6 +89,8 @@ class State:
         self.handlers: list = []  # stack of sinks for try/except
         self.qctx: list = []  # stack of quantified contexts (comprehension bodies)
         self.exact = True
+        self.alias: dict = {}  # loop variable -> (sequence variable, index term): the variable IS that element
+        self.borrowed: set = set()  # locals bound to an existing mutable object (x = self.d): mutating them is refused
 
     def copy(self) -> "State":
         s = State()
@@ -96,6 +100,8 @@ class State:
         s.handlers = self.handlers  # shared sinks
         s.qctx = self.qctx
         s.exact = self.exact
+        s.alias = dict(self.alias)
+        s.borrowed = set(self.borrowed)
         return s
 
     def assume(self, c):
@@ -309,6 +315,9 @@ class Engine:
         v = self.eval(node.value, st, hint=hint)
         for tgt in node.targets:
             self.assign(tgt, v, st, node)
+            if isinstance(tgt, ast.Name) and isinstance(node.value, (ast.Name, ast.Attribute, ast.Subscript)) and \
+                    _mutable_kind(v):
+                st.borrowed.add(tgt.id)  # a second name for an existing object: value semantics would lose its mutations
         return [(st, None)]
 
     def s_AnnAssign(self, node, st):
@@ -328,7 +337,8 @@ class Engine:
         cur = self.eval(node.target, st)
         rhs = self.eval(node.value, st)
         v = self.binop(node.op, cur, rhs, st, node)
-        self.assign(node.target, v, st, node)
+        # `lst += x` extends a list in place (a mutation of the object), `n += 1` rebinds
+        self.assign(node.target, v, st, node, writeback=isinstance(cur.ty, TSeq) and bool(cur.mut))
         return [(st, None)]
 
     def s_Return(self, node, st):
@@ -416,11 +426,11 @@ class Engine:
                     ty = base.ty
                     self.raise_if(st, z3.Not(z3.Select(ty.dom(base.t), k.t)), "KeyError", node.lineno)
                     new = ty.mk(z3.Store(ty.dom(base.t), k.t, False), ty.vals(base.t), ty.size(base.t) - 1)
-                    self.assign(tgt.value, Val(ty, new, True), st, node)
+                    self.assign(tgt.value, Val(ty, new, True), st, node, writeback=True)
                     continue
                 if isinstance(base.ty, TSeq) and isinstance(tgt.slice, ast.Slice) and tgt.slice.lower is None \
                         and tgt.slice.upper is None and tgt.slice.step is None:
-                    self.assign(tgt.value, Val(base.ty, base.ty.mk(z3.IntVal(0), base.ty.arr(base.t)), True), st, node)
+                    self.assign(tgt.value, Val(base.ty, base.ty.mk(z3.IntVal(0), base.ty.arr(base.t)), True), st, node, writeback=True)
                     continue
             raise Unsupported("del target", node)
         return [(st, None)]
@@ -480,7 +490,9 @@ class Engine:
             if spec is None:
                 raise Unsupported(f"loop #{ordinal} has no invariant in the contract", node)
             raise Unsupported("bounded unrolling of symbolic-length loops not enabled", node)
-        mods = sorted(_assigned(node.body) | _target_names(node.target))
+        srcs = self._alias_sources(node, st)
+        mutated = _assigned(node.body) | _mutated_receivers(node.body)
+        mods = sorted(_assigned(node.body) | _target_names(node.target) | {q for v, q in srcs.items() if v in mutated})
         a = self.pre
 
         entry = self._ns(st.env)
@@ -508,6 +520,10 @@ class Engine:
         results = []
         if self.feasible(body_st):
             self.bind(node.target, elem(k), body_st, node)
+            for v, q in srcs.items():
+                body_st.alias[v] = (q, k)
+            body_st.borrowed |= {t for t in _target_names(node.target) if t not in srcs and t in body_st.env
+                                 and _mutable_kind(body_st.env[t])}
             for s, flow in self.exec_block(node.body, body_st):
                 if flow in (None, "continue"):
                     for name, cl in inv(s, k + 1).items():
@@ -524,13 +540,40 @@ class Engine:
         results.append((ex, None))
         return results
 
+    def _alias_sources(self, node: ast.For, st: State) -> dict[str, str]:
+        """Loop variables that are *the elements themselves* of a named sequence of mutable records:
+        `for x in xs`, `for x, y in zip(xs, ys)`, `for i, x in enumerate(xs)` (and nestings of these).  A mutation of
+        such a variable is a mutation of xs[k]; mutations of record-typed loop variables of any other origin are
+        refused (see assign)."""
+        out: dict[str, str] = {}
+
+        def walk(it: ast.expr, tgt: ast.expr):
+            if isinstance(it, ast.Name) and isinstance(tgt, ast.Name):
+                v = st.env.get(it.id)
+                if v is not None and isinstance(v.ty, TSeq) and isinstance(v.ty.elem, (TRec, TDict, TSet, TSeq)):
+                    out[tgt.id] = it.id
+            elif isinstance(it, ast.Call) and isinstance(it.func, ast.Name) and it.func.id == "zip" and \
+                    isinstance(tgt, (ast.Tuple, ast.List)) and len(tgt.elts) == len(it.args):
+                for a_, t_ in zip(it.args, tgt.elts):
+                    walk(a_, t_)
+            elif isinstance(it, ast.Call) and isinstance(it.func, ast.Name) and it.func.id == "enumerate" and \
+                    isinstance(tgt, (ast.Tuple, ast.List)) and len(tgt.elts) == 2 and len(it.args) == 1:
+                walk(it.args[0], tgt.elts[1])
+        walk(node.iter, node.target)
+        return out
+
     def _unroll(self, node, st, n: int, elem):
         live = [st]
         done = []
+        srcs = self._alias_sources(node, st)
         for i in range(n):
             nxt = []
             for s in live:
                 self.bind(node.target, elem(z3.IntVal(i)), s, node)
+                for v, q in srcs.items():
+                    s.alias[v] = (q, z3.IntVal(i))
+                s.borrowed |= {t for t in _target_names(node.target) if t not in srcs and t in s.env
+                               and _mutable_kind(s.env[t])}
                 for s2, flow in self.exec_block(node.body, s):
                     if flow in (None, "continue"):
                         nxt.append(s2)
@@ -692,11 +735,23 @@ class Engine:
         raise Unsupported("loop target", node)
 
     # ---- assignment -----------------------------------------------------------------------------------
-    def assign(self, tgt: ast.expr, v: Val, st: State, node):
+    def assign(self, tgt: ast.expr, v: Val, st: State, node, writeback: bool = False):
+        """writeback=True: the new value of a *mutated* object is stored back through its l-value (field store, method
+        with a `modifies` contract); False: the name is rebound."""
         if isinstance(tgt, ast.Name):
             hint = self.c.locals_.get(tgt.id)
             if hint is not None:
                 v = self.coerce(v, hint, st, node)
+            if writeback:
+                if tgt.id in st.alias:  # the variable is element k of a sequence: the element is what changed
+                    q, k = st.alias[tgt.id]
+                    sq = st.env[q]
+                    st.env[q] = Val(sq.ty, sq.ty.mk(sq.ty.len(sq.t), z3.Store(sq.ty.arr(sq.t), k, v.t)), True)
+                elif tgt.id in st.borrowed:
+                    raise Unsupported(f"mutation of {tgt.id}, which is another name of an existing object", node)
+            else:
+                st.alias.pop(tgt.id, None)
+                st.borrowed.discard(tgt.id)
             st.env[tgt.id] = v
             return
         if isinstance(tgt, (ast.Tuple, ast.List)):
@@ -712,7 +767,7 @@ class Engine:
             if isinstance(base.ty, TRec) and tgt.attr in base.ty.fields:
                 fty = base.ty.fields[tgt.attr]
                 v = self.coerce(v, fty, st, node)
-                self.assign(tgt.value, Val(base.ty, base.ty.set(base.t, tgt.attr, v.t), base.mut), st, node)
+                self.assign(tgt.value, Val(base.ty, base.ty.set(base.t, tgt.attr, v.t), base.mut), st, node, writeback=True)
                 return
             raise Unsupported(f"attribute assignment .{tgt.attr}", node)
         if isinstance(tgt, ast.Subscript):
@@ -720,7 +775,7 @@ class Engine:
             if isinstance(base.ty, TRec) and isinstance(tgt.slice, ast.Constant) and tgt.slice.value in base.ty.fields:
                 fty = base.ty.fields[tgt.slice.value]
                 v = self.coerce(v, fty, st, node)
-                self.assign(tgt.value, Val(base.ty, base.ty.set(base.t, tgt.slice.value, v.t), True), st, node)
+                self.assign(tgt.value, Val(base.ty, base.ty.set(base.t, tgt.slice.value, v.t), True), st, node, writeback=True)
                 return
             if isinstance(base.ty, TDict):
                 ty = base.ty
@@ -729,13 +784,13 @@ class Engine:
                 had = z3.Select(ty.dom(base.t), k.t)
                 new = ty.mk(z3.Store(ty.dom(base.t), k.t, True), z3.Store(ty.vals(base.t), k.t, v.t),
                             z3.If(had, ty.size(base.t), ty.size(base.t) + 1))
-                self.assign(tgt.value, Val(ty, new, True), st, node)
+                self.assign(tgt.value, Val(ty, new, True), st, node, writeback=True)
                 return
             if isinstance(base.ty, TSeq):
                 ty = base.ty
                 i = self.index(base, self.eval(tgt.slice, st), st, node)
                 v = self.coerce(v, ty.elem, st, node)
-                self.assign(tgt.value, Val(ty, ty.mk(ty.len(base.t), z3.Store(ty.arr(base.t), i, v.t)), True), st, node)
+                self.assign(tgt.value, Val(ty, ty.mk(ty.len(base.t), z3.Store(ty.arr(base.t), i, v.t)), True), st, node, writeback=True)
                 return
         raise Unsupported("assignment target", node)
 
@@ -1403,6 +1458,17 @@ class Engine:
             seq_alt = next((aty for _, aty in recv.ty.alts if isinstance(aty, TSeq)), None)
             if seq_alt is not None:  # str has these methods too, with another meaning: only the tuple reading is modelled
                 recv = self.coerce(recv, seq_alt, st, node)
+        if isinstance(recv.ty, TRec) and getattr(self.registry.get(f"{recv.ty.name}.{name}"), "star_call", False):
+            c = self.registry[f"{recv.ty.name}.{name}"]
+            if not (len(node.args) == 1 and isinstance(node.args[0], ast.Starred) and len(node.keywords) == 1
+                    and node.keywords[0].arg is None):
+                raise Unsupported("call of a stored callable in another form than f(*args, **kwargs)", node)
+            r = self.apply_contract(c, [recv, self.eval(node.args[0].value, st), self.eval(node.keywords[0].value, st)],
+                                    {}, st, node)
+            first = next(iter(c.params))
+            if first in c.modifies:
+                self.assign(f.value, self._post_vals[first], st, node, writeback=True)
+            return r
         args = [self.eval(a, st) for a in node.args]
         kw = self._kwargs(node, st)
         L = node.lineno
@@ -1415,7 +1481,7 @@ class Engine:
                 r = self.apply_contract(c, [recv] + args, kw, st, node)
                 first = next(iter(c.params))
                 if first in c.modifies:
-                    self.assign(f.value, self._post_vals[first], st, node)
+                    self.assign(f.value, self._post_vals[first], st, node, writeback=True)
                 return r
             raise Unsupported(f"method {cname} (no contract)", node)
         if isinstance(recv.ty, TSeq):
@@ -1423,7 +1489,7 @@ class Engine:
             n = ty.len(recv.t)
             if name == "append":
                 x = self.coerce(args[0], ty.elem, st, node)
-                self.assign(f.value, Val(ty, ty.mk(n + 1, z3.Store(ty.arr(recv.t), n, x.t)), True), st, node)
+                self.assign(f.value, Val(ty, ty.mk(n + 1, z3.Store(ty.arr(recv.t), n, x.t)), True), st, node, writeback=True)
                 return VNone
             if name == "pop" and (not args or z3.is_int_value(z3.simplify(args[0].t))):
                 self.raise_if(st, n <= 0, "IndexError", L)
@@ -1435,11 +1501,11 @@ class Engine:
                     st.assume(z3.ForAll([i], z3.Implies(z3.And(0 <= i, i < n - 1),
                                                         ri == z3.Select(ty.arr(recv.t), i + 1)), patterns=[ri]))
                     out = Val(ty.elem, z3.Select(ty.arr(recv.t), 0))
-                    self.assign(f.value, Val(ty, r.t, True), st, node)
+                    self.assign(f.value, Val(ty, r.t, True), st, node, writeback=True)
                     return out
                 if not args or z3.simplify(args[0].t).as_long() == -1:
                     out = Val(ty.elem, z3.Select(ty.arr(recv.t), n - 1))
-                    self.assign(f.value, Val(ty, ty.mk(n - 1, ty.arr(recv.t)), True), st, node)
+                    self.assign(f.value, Val(ty, ty.mk(n - 1, ty.arr(recv.t)), True), st, node, writeback=True)
                     return out
             if name == "remove":
                 # removes the FIRST equal element; ValueError if absent.  p = its position (ghost, skolem).
@@ -1457,7 +1523,7 @@ class Engine:
                                                     ri == z3.If(i < p, z3.Select(ty.arr(recv.t), i),
                                                                 z3.Select(ty.arr(recv.t), i + 1))), patterns=[ri]))
                 self.ghost_remove_pos = p
-                self.assign(f.value, Val(ty, r.t, True), st, node)
+                self.assign(f.value, Val(ty, r.t, True), st, node, writeback=True)
                 return VNone
             if name == "index":
                 x = self.coerce(args[0], ty.elem, st, node)
@@ -1488,11 +1554,11 @@ class Engine:
                 if len(args) == 1:
                     self.raise_if(st, z3.Not(has), "KeyError", L)
                     new = ty.mk(z3.Store(ty.dom(recv.t), k.t, False), ty.vals(recv.t), ty.size(recv.t) - 1)
-                    self.assign(f.value, Val(ty, new, True), st, node)
+                    self.assign(f.value, Val(ty, new, True), st, node, writeback=True)
                     return v
             if name == "clear":
                 self.assign(f.value, Val(ty, ty.mk(z3.K(ty.key.sort(), z3.BoolVal(False)), ty.vals(recv.t),
-                                                   z3.IntVal(0)), True), st, node)
+                                                   z3.IntVal(0)), True), st, node, writeback=True)
                 return VNone
             if name == "keys" and not args:
                 return self.dict_order(recv, st)
@@ -1769,6 +1835,22 @@ def _mentions(t, c) -> bool:
         seen.add(x.get_id())
         stack.extend(x.children())
     return False
+
+
+def _mutable_kind(v) -> bool:
+    return isinstance(v, Val) and (isinstance(v.ty, (TRec, TDict, TSet)) or (isinstance(v.ty, TSeq) and bool(v.mut)))
+
+
+def _mutated_receivers(stmts: list[ast.stmt]) -> set[str]:
+    """Names that receive any method call or attribute store in a block (candidates for mutation through an alias)."""
+    out: set[str] = set()
+    for s in stmts:
+        for n in ast.walk(s):
+            if isinstance(n, ast.Call) and isinstance(n.func, ast.Attribute) and isinstance(n.func.value, ast.Name):
+                out.add(n.func.value.id)
+            if isinstance(n, ast.Attribute) and isinstance(n.ctx, ast.Store) and isinstance(n.value, ast.Name):
+                out.add(n.value.id)
+    return out
 
 
 def _assigned(stmts: list[ast.stmt]) -> set[str]:
